@@ -577,6 +577,13 @@ pub mod verif {
         let regex_type = regex_type.parse::<super::RegexType>().ok()?;
         Some(super::inside_group(pattern, regex_type))
     }
+
+    /// Whether every back-reference of the pattern refers to a group that is
+    /// complete where it stands.
+    pub fn back_references_ok(pattern: &str, regex_type: &str) -> Option<bool> {
+        let regex_type = regex_type.parse::<super::RegexType>().ok()?;
+        Some(super::check_back_references(pattern, regex_type).is_ok())
+    }
 }
 
 impl Matcher for RegexMatcher {
